@@ -2,7 +2,16 @@
    steps (the steps of a group were injected concurrently, on pairwise distinct
    sessions, and the registry was read once the group had been processed; most
    groups are singletons), the values read from prometheus' Registry.Gather()
-   after each group, and what the inner handler / the client side saw. *)
+   after each group, and what the inner handler / the client side saw.
+
+   The harness has two transports: the Handler API called directly, and
+   WebSocket sessions served by the real Relay.ServeHTTP (whose upgrade
+   requests carry client-chosen X-Request-Id headers).  Neither the model nor
+   the specification mentions the transport or the headers — the middleware
+   draws a fresh key per session — so a case of either transport is judged by
+   the same model and the same oracle; a run that did not end cleanly (a lost
+   message, a panic of a goroutine of the middleware: [clean = false]) is
+   rejected by both. *)
 From Moc Require Import Base Prom.
 Open Scope Z_scope.
 
